@@ -816,6 +816,7 @@ EXPORT errno_t _wcsnorm_reorder_s_chk(wchar_t *restrict dest, rsize_t dmax,
             size_t i;
 
             if (unlikely(dmax - cc_pos <= 0)) {
+                free(seq_ext);
                 handle_werror(orig_dest, orig_dmax,
                               "wcsnorm_reorder_s: "
                               "dmax too small",
@@ -837,6 +838,7 @@ EXPORT errno_t _wcsnorm_reorder_s_chk(wchar_t *restrict dest, rsize_t dmax,
         }
 
         if (unlikely(!dmax)) {
+            free(seq_ext);
             handle_werror(orig_dest, orig_dmax,
                           "wcsnorm_reorder_s: "
                           "dmax too small",
@@ -1046,6 +1048,7 @@ EXPORT errno_t _wcsnorm_compose_s_chk(wchar_t *restrict dest, rsize_t dmax,
         /* output */
         _ENC_W16(dest, dmax, cpS); /* starter (composed or not) */
         if (unlikely(!dmax)) {
+            free(seq_ext);
             handle_werror(orig_dest, orig_dmax,
                           "wcsnorm_compose_s: "
                           "dmax too small",
